@@ -103,6 +103,22 @@ Proof.
   lra.
 Qed.
 
+(* ---- composition with a linear map keeps the first-order inequality (modulus 0): x |-> h (D x) with (super)gradient D^T gh (D x).
+        LMRF = Laplace o (difference operator); also any prior placed on a linear feature of x ---- *)
+Lemma compose_linear_concave k n (D : rmat) (h : rvec -> R) (gh : rvec -> rvec) :
+  (forall u v, h v <= h u + ip k (gh u) (rsub v u) - 0 / 2 * nsq k (rsub v u)) ->
+  forall x y, h (mv D n y) <= h (mv D n x) + ip n (mtv D k (gh (mv D n x))) (rsub y x) - 0 / 2 * nsq n (rsub y x).
+Proof.
+  intros H x y. pose proof (H (mv D n x) (mv D n y)) as P. rewrite adjoint_R.
+  assert (E : ip k (gh (mv D n x)) (rsub (mv D n y) (mv D n x)) = ip k (gh (mv D n x)) (mv D n (rsub y x))).
+  { apply ip_ext; [reflexivity|]. intros i _. unfold rsub at 1. rewrite mv_sub. reflexivity. }
+  rewrite E in P. lra.
+Qed.
+
+Lemma lmrf_concave k n (D : rmat) loc w : (forall i, (i < k)%nat -> 0 <= w i) ->
+  forall x y, lap k loc w (mv D n y) <= lap k loc w (mv D n x) + ip n (mtv D k (glap loc w (mv D n x))) (rsub y x) - 0 / 2 * nsq n (rsub y x).
+Proof. intros Hw. apply compose_linear_concave. apply lap_concave. exact Hw. Qed.
+
 (* non-vacuity of the whole chain with a SmoothedLaplace prior: one parameter, A = 1, Pe = 1, data 1, loc 0, scale 1, beta = 3/4:
    the posterior gradient -(x - 1) - x / sqrt(x^2 + 3/4) vanishes at xs = 1/2 *)
 Definition slA : rmat := fun _ _ => 1.
